@@ -513,6 +513,10 @@ static void report(void)
 		       nm, npk[side], tot_acc, tot_del, n_dup[side], n_ooo[side], n_garbage[side]);
 		printf("%s: checked window: offered %ld, never read from tun %ld, accepted %ld, delivered %ld, lost %ld, delivered twice %ld, late(>%.0fs) %ld, worst latency %.3fs\n",
 		       nm, offered, offered - accepted, accepted, delivered, lost, dup, max_latency, late, worst);
+		if (n_garbage[side]) {
+			printf("VIOLATION (%s): %ld packets written to the peer's tun device that were never offered (garbage)\n", nm, n_garbage[side]);
+			bad = 1;
+		}
 		if (offered > 0 && accepted == 0) {
 			printf("VIOLATION (%s): WEDGED - packets are offered on the tun device but none is ever read/forwarded\n", nm);
 			bad = 1;
